@@ -105,7 +105,7 @@ NOT_YET = {
 }
 
 # checks built by sub-agents: texts are taken from the "Proposed MANIFEST texts" section of notes/<ID>.md
-AGENT_NOTES = {"C16": "C16.md", "C20": "C20.md", "C13": "C13.md", "C14": "C14.md", "C03": "C03.md", "C10": "C10.md", "C11": "C11.md", "C01": "C01.md", "C17": "C17.md", "C18": "C18.md"}
+AGENT_NOTES = {"C16": "C16.md", "C20": "C20.md", "C13": "C13.md", "C14": "C14.md", "C03": "C03.md", "C10": "C10.md", "C11": "C11.md", "C01": "C01.md", "C17": "C17.md", "C18": "C18.md", "C09": "C09.md", "C12": "C12.md"}
 
 
 def grab(path):
@@ -122,6 +122,13 @@ def grab(path):
         m = re.search(r"\*\s*\**" + pat + r"[:]?\s*(.+?)(?=\n\*\s|\Z)", sec, re.S | re.I)
         if m:
             out[key] = " ".join(m.group(1).split()).strip().strip('`"\u201c\u201d')
+    if "technique" not in out:          # plain "technique: ... / level note: ..." paragraphs
+        m = re.search(r"^technique:\s*(.+?)(?=^level)", sec, re.S | re.M | re.I)
+        n = re.search(r"^level note:\s*(.+?)(?=\n\s*\n|\Z)", sec, re.S | re.M | re.I)
+        if m:
+            out["technique"] = " ".join(m.group(1).split())
+        if n:
+            out["note"] = " ".join(n.group(1).split())
     return out
 
 
